@@ -353,6 +353,9 @@ Inv ==
   LET t == Trees[ti] w == Words[wi]
       ms == ExpandPath({}, t, w, opts)
       plain == ExpandPath({}, t, w, opts \ {"nullglob"})
+      withDot == ExpandPath({}, t, w, opts \cup {"dotglob"})
+      \* the named deviations that change this vector on their own, and every combination of those
+      ds == { d \in AllDevs : ExpandPath({d}, t, w, opts) # ms }
   IN \* sorted and without duplicates when something matched
      /\ (Len(ms) > 1 => Sorted(ms))
      \* nullglob only matters when nothing matches: then the result is empty instead of the word itself
@@ -362,8 +365,8 @@ Inv ==
      /\ ("noglob" \in opts => ms = << WordLit(w) >>)
      \* dotglob and nocaseglob only add matches
      /\ (WordHasMeta(w) /\ "noglob" \notin opts /\ plain # << WordLit(w) >> =>
-            \A i \in 1..Len(plain) : \E k \in 1..Len(ExpandPath({}, t, w, opts \cup {"dotglob"})) : ExpandPath({}, t, w, opts \cup {"dotglob"})[k] = plain[i])
+            \A i \in 1..Len(plain) : \E k \in 1..Len(withDot) : withDot[k] = plain[i])
      /\ PrintT(<<"VEC", ToJson([tree |-> ti, nodes |-> t, word |-> WordSrc(w), opts |-> opts, paths |-> ms,
-                                devs |-> { c \in { [name |-> S, paths |-> ExpandPath(S, t, w, opts)] : S \in (SUBSET AllDevs) \ {{}} } : c.paths # ms },
+                                devs |-> { c \in { [name |-> S, paths |-> ExpandPath(S, t, w, opts)] : S \in (SUBSET ds) \ {{}} } : c.paths # ms },
                                 nontrivial |-> WordHasMeta(w) /\ "noglob" \notin opts /\ ms # << WordLit(w) >> /\ ms # <<>>])>>)
 =========================================================================
